@@ -145,6 +145,6 @@ def run(ctx):
     else:
         rep.ok('R17.c', 'R17.c|selftest', 'matcher recognises SystemTime::now / env::var')
     rep.notes.append('FxHash iterations exempt: %d' % nfx)
-    rep.floor('R17.a', 7)
+    rep.floor('R17.a', 5)
     rep.floor('R17.b', 2)
     return rep
